@@ -134,6 +134,7 @@ PROPS['C16'] = dict(
 )
 
 PROPS['C08'] = dict(
+    bounded_quick=[('cursor', 'Node::split / spill / write / free_page, InnerBucket::merge_nodes / rebalance / spill (Rc<RefCell<Node>> graph, float thresholds), Page::write_node / Node::from_page beyond the bounded Kani codec')],
     level='proof',
     units=['range', 'cursor', 'pagenode'],
     explanation='Ranges: Range::next is verified on its real body for a generic R: RangeBounds<&[u8]> (all nine combinations of included / excluded / unbounded) against the '
@@ -158,6 +159,7 @@ A_TREEIF = 'the tree a cursor walks is an abstract interface (prelude/cursor_tre
 A_ELEMS = 'element headers of mapped pages and their key bytes are stub views of the raw-pointer casts (U17/U18, Leaf/Branch key accessors); layout pinned by K1'
 
 PROPS['C07'] = dict(
+    bounded_quick=[('history', 'Node::split / spill / write / free_page, InnerBucket::merge_nodes / rebalance / spill (Rc<RefCell<Node>> graph, float thresholds), Page::write_node / Node::from_page beyond the bounded Kani codec'), ('cursor', 'Node::split / spill / write / free_page, InnerBucket::merge_nodes / rebalance / spill (Rc<RefCell<Node>> graph, float thresholds), Page::write_node / Node::from_page beyond the bounded Kani codec')],
     level='other',
     units=['pagenode', 'cursor', 'bucketops'],
     explanation='A write transaction reads a MIXTURE of untouched mapped pages and modified in-memory nodes. Proved on the real bodies, for all node contents: '
@@ -173,6 +175,7 @@ PROPS['C07'] = dict(
 )
 
 PROPS['C05'] = dict(
+    bounded_quick=[('history', 'Node::split / spill / write / free_page, InnerBucket::merge_nodes / rebalance / spill (Rc<RefCell<Node>> graph, float thresholds), Page::write_node / Node::from_page beyond the bounded Kani codec')],
     level='proof',
     composition='the accounting part of INV (pending pages below the high-water mark, not free, pending once; live pages not free) is preserved by begin/end reader and commit: Verus lemma L2 (contracts/lemmas.vtmpl) under assumptions A1/A2',
     units=['freelist', 'commit', 'open', 'pagenode', 'lemmas', 'bucketops'],
@@ -191,6 +194,7 @@ PROPS['C05'] = dict(
     not_covered=['double free / duplicated pages by the tree layer (rebalance, merge, nested bucket delete)', 'key order across pages and separator bounds', 'TxInner::check agreement'],
 )
 PROPS['C01'] = dict(
+    bounded_quick=[('history', 'Node::split / spill / write / free_page, InnerBucket::merge_nodes / rebalance / spill (Rc<RefCell<Node>> graph, float thresholds), Page::write_node / Node::from_page beyond the bounded Kani codec'), ('cursor', 'Node::split / spill / write / free_page, InnerBucket::merge_nodes / rebalance / spill (Rc<RefCell<Node>> graph, float thresholds), Page::write_node / Node::from_page beyond the bounded Kani codec')],
     level='other',
     units=['pagenode', 'cursor', 'range', 'guards', 'bucketops'],
     kani_quick=['layout'],
